@@ -1500,6 +1500,16 @@ class TLSConnection(TLSRecordLayer):
                 delegated_credential = cert_ext.delegated_credential
                 publicKey = delegated_credential.cred.pub_key
                 signature_scheme = delegated_credential.cred.dc_cert_verify_algorithm
+            else:
+                valid_sig_algs = self._sigHashesToList(
+                    settings, certList=serverCertChain, version=(3, 4))
+                if signature_scheme not in valid_sig_algs:
+                    for result in self._sendError(
+                            AlertDescription.illegal_parameter,
+                            "Server selected signature algorithm we didn't "
+                            "advertise or that doesn't match its "
+                            "certificate"):
+                        yield result
 
             if signature_scheme in (SignatureScheme.ed25519,
                                     SignatureScheme.ed448,
